@@ -70,7 +70,7 @@ func marked(g *docGen, words int) string {
 func ogHead(g *docGen) string {
 	return `<meta property="og:title" content="Og Title ` + g.words(2) + `"><meta property="og:type" content="article">` +
 		`<meta property="og:url" content="https://example.com/og"><meta property="og:image" content="https://example.com/og.png">` +
-		`<meta property="og:description" content="og desc"><meta property="article:author" content="Og Author">`
+		`<meta property="og:description" content="og desc"><meta property="article:author" content="Og Author"><meta property="article:author" content="Og Second"><meta property="article:author" content="Og Author"><meta property="article:author" content="Og Third">`
 }
 
 func schemaBody(g *docGen) string {
@@ -102,7 +102,9 @@ func richDoc(id int, g *docGen) string {
 			sb.WriteString(`<div style="` + siteStyles[id%3] + `">` + g.para(30) + `</div><p>` + g.words(20) +
 				` <span style="` + siteStyles[(id+1)%3] + `">` + g.words(3) + `</span> ` + g.words(10) +
 				// links inside the story that name only a query or only a fragment
-				` <a href="?view=print">` + g.words(1) + `</a> ` + g.words(5) + ` <a href="#fn1">` + g.words(1) + `</a> ` + g.words(5) + `</p>`)
+				` <a href="?view=print">` + g.words(1) + `</a> ` + g.words(5) + ` <a href="#fn1">` + g.words(1) + `</a> ` + g.words(5) +
+				// ... and one that is relative to the directory of the page (the same reference on every page of the site)
+				` <a href="part-2.html">` + g.words(1) + `</a> ` + g.words(3) + ` <a href="../archive/index.html">` + g.words(1) + `</a></p>`)
 		}
 		return sb.String()
 	}
@@ -287,7 +289,11 @@ func richDoc(id int, g *docGen) string {
 		forest := randomForest(r, 14)
 		return g.page(forest, docPlaces[r.Intn(len(docPlaces))])
 	}
-	return "<!DOCTYPE html><html><head>" + head.String() + "</head><body>" + body.String() + "</body></html>"
+	// how the bytes start: usually a doctype - sometimes an XML declaration (XHTML), a byte order mark, white space,
+	// or nothing at all before the first element
+	start := []string{"<!DOCTYPE html>", "<!DOCTYPE html>", "<!DOCTYPE html>", `<?xml version="1.0" encoding="UTF-8"?>` + "\n<!DOCTYPE html>",
+		"\ufeff<!DOCTYPE html>", "\n\n  <!DOCTYPE html>", ""}[(id/nRichDocs)%7]
+	return start + "<html><head>" + head.String() + "</head><body>" + body.String() + "</body></html>"
 }
 
 // randomForest draws an abstract forest over the doc-family alphabet.
